@@ -526,6 +526,23 @@ def gen_illtyped(chk, n):
     return progs
 
 
+def gen_handled_faults(chk):
+    """every kind of failure (runtime faults, thrown exceptions, template / formatter / identifier errors, stray loop signals)
+    inside a body that has a handler which USES the exception (其内容 read, displayed, measured): a value or a Zn error"""
+    faults = ["令丁 = “{}：{” % 【1】", "令丁 = “{}-{}” % 【1】", "令丁 = “{#.2}” % 【“文”】", "令丁 = “{#x}” % 【1】", "令丁 = 128kg", "令丁 = 1.2.3",
+              "结束循环", "继续循环", "令丁 = 1 / 0", "抛出异常：“x”", "（未定义方法：1）", "令丁 = 【1】#5", "令丁 = 未定义名", "令丁 = “a” > 1",
+              "令丁 = 以“文”（不存在）", "令丁 = （新建未定义类）", "丁 = 1", "令丁 = 【1，2】之不存在", "以值遍历5：\n        输出值", "如果1：\n        输出1",
+              "令丁 = （解析JSON：“{”）", "令丁 = （读取文件：“/不存在/x”）"]
+    handlers = ["输出其内容", "（显示：其内容）\n    输出1", "令文 = 其内容之长度\n    输出文", "输出【其内容】", "输出“{}” % 【其内容】", "输出其"]
+    progs = []
+    for f in faults:
+        for h in handlers[:3] + [chk.rng.choice(handlers[3:])]:
+            progs.append("导入《@JSON》\n导入《@文件》\n令甲 = 1\n%s\n输出2\n\n拦截异常：\n    %s\n" % (f.replace("\n        ", "\n    "), h))
+            progs.append("导入《@JSON》\n导入《@文件》\n如何试？\n    令甲 = 1\n    %s\n    输出2\n\n    拦截异常：\n        %s\n\n（显示：（试））\n输出3\n"
+                         % (f, h.replace("\n    ", "\n        ")))
+    return progs
+
+
 def gen_mutating_loops(chk, n):
     """loops over a collection that the loop body changes (keys removed ahead of / behind the current one, items shifted out,
     the collection emptied or replaced), with the loop variables then USED (displayed, rendered, stored, compared, passed on):
@@ -1021,6 +1038,8 @@ def _run(chk, replay, quick, fnd, cwd):
         progs.append((src, {"op": "operator", "name": "operator", "_rname": "program"}))
     for src in gen_illtyped(chk, 400 if quick else 6000):
         progs.append((src, {"op": "illtyped", "name": "illtyped", "_rname": "program"}))
+    for src in gen_handled_faults(chk):
+        progs.append((src, {"op": "handled-fault", "name": "handled-fault", "_rname": "program"}))
     for src in gen_mutating_loops(chk, 150 if quick else 2500):
         progs.append((src, {"op": "mutating-loop", "name": "mutating-loop", "_rname": "program"}))
     pouts = core.harness("c10", "prog", [{"src": s, "cwd": cwd} for s, _ in progs], timeout_ms=8000, batch_timeout=1200)
@@ -1046,7 +1065,7 @@ def _run(chk, replay, quick, fnd, cwd):
                             "空, lists, dicts, nested, objects, functions, class refs, exceptions, the receiver itself) + seeded arity 3-4; every "
                             "member name on every other receiver type; every index value read/write; Validate* on random type lists; VM accessor "
                             "scripts; input-variable texts; the same calls as one-call programs through the interpreter; all binary operators "
-                            "over pool pairs; ill-typed generated programs; loops whose body changes the collection they run over and then uses the loop variables; heap mutation scripts. distinct = distinct case; non-trivial = has "
+                            "over pool pairs; ill-typed generated programs; every kind of failure under a handler that uses 其内容; loops whose body changes the collection they run over and then uses the loop variables; heap mutation scripts. distinct = distinct case; non-trivial = has "
                             "arguments (or is a getter)") % ("reduced" if quick else "full", len(POOL_QUICK if quick else POOL_FULL))
 
 
